@@ -70,21 +70,35 @@ type liveSwitchReader struct {
 func (sr *liveSwitchReader) setInHandler(v bool) {
 	sr.Lock()
 	sr.inHandler = v
-	if !v {
+	if v {
+		// No Read is in progress while a handler runs. A copy routine that
+		// a CloseNotify request made during the last Read left pending takes
+		// over now: a handler that waits for that channel would otherwise
+		// never be told that the peer is gone, since the next Read only
+		// happens after it has returned.
+		sr.startPipeCopy()
+	} else {
 		sr.waitSince = time.Now()
 	}
 	sr.Unlock()
 }
 
-func (sr *liveSwitchReader) Read(p []byte) (n int, err error) {
-	sr.Lock()
-	// Check if closeNotifier was created prior to this Read call & start it
+// startPipeCopy starts a pending closeNotifier pipe copy routine and makes
+// the pipe the source of the next Read. The caller holds the lock and knows
+// that no Read is in progress.
+func (sr *liveSwitchReader) startPipeCopy() {
 	if sr.pr != nil && sr.pipeCopyF != nil {
 		go sr.pipeCopyF()
 		sr.r = sr.pr
 		sr.pr = nil
 		sr.pipeCopyF = nil
 	}
+}
+
+func (sr *liveSwitchReader) Read(p []byte) (n int, err error) {
+	sr.Lock()
+	// Check if closeNotifier was created prior to this Read call & start it
+	sr.startPipeCopy()
 	r := sr.r
 	sr.Unlock()
 	return r.Read(p)
@@ -139,18 +153,13 @@ func (c *conn) closeNotify() <-chan struct{} {
 		}
 	}
 	c.sr.Lock()
-	if c.sr.inHandler && c.sr.pr != nil && c.sr.pipeCopyF != nil {
+	if c.sr.inHandler {
 		// A handler is running, on the goroutine that reads: no Read is in
-		// progress and the copy routine can take over at once - the one
-		// created above, or one that an earlier request, made while a Read
-		// was in progress, left for the next Read to start. It has to: a
-		// handler that waits for the channel it asked for would otherwise
-		// never be told that the peer is gone, since the next Read only
-		// happens after it has returned.
-		go c.sr.pipeCopyF()
-		c.sr.r = c.sr.pr
-		c.sr.pr = nil
-		c.sr.pipeCopyF = nil
+		// progress and the copy routine created above can take over at
+		// once. It has to: a handler that waits for the channel it asked
+		// for would otherwise never be told that the peer is gone, since
+		// the next Read only happens after it has returned.
+		c.sr.startPipeCopy()
 	}
 	c.sr.Unlock()
 	return c.closeNotifyc
